@@ -80,7 +80,7 @@ package redisemu
 //@ modifies ghost.now cell alloc
 //@ assertafter "expiration = now.Add(time.Second*" [C07] ex.deadline: 0 < unbox(arg, int64) && unbox(arg, int64) <= 4000000000 ==> expiration == now + 1000000000*unbox(arg, int64) - 1
 //@ assertafter "expiration = now.Add(time.Millisecond*" [C07] px.deadline: 0 < unbox(arg, int64) && unbox(arg, int64) <= 4000000000000 ==> expiration == now + 1000000*unbox(arg, int64) - 1
-//@ assertafter "expiration = time.Unix(arg.(int64), 0)" [C07] exat.deadline: 0 < unbox(arg, int64) && unbox(arg, int64) <= 4000000000 ==> expiration == 1000000000*unbox(arg, int64) - 1
+//@ assertafter "expiration = time.Unix(arg.(int64), 0)" [C07] exat.deadline: 0 < unbox(arg, int64) && unbox(arg, int64) <= 4000000000 ==> expiration == 1000000000*unbox(arg, int64)
 //@ assertafter "expiration = time.Unix(n/1000, " [C07] pxat.deadline: 0 < unbox(arg, int64) && unbox(arg, int64) <= 4000000000000 ==> expiration == 1000000*unbox(arg, int64)
 
 // C13 / C18: BITCOUNT's range normalisation stays inside the value for every start/end/unit
@@ -134,15 +134,29 @@ package redisemu
 //@ prop C18
 //@ safetyprop C13
 //@ requires 1 <= width && width <= 64
-//@ modifies nothing
 //@ ensures [C18] offset.range: valid ==> 0 <= offset && offset < 4294967296
+// every offset that addresses a bit of a 512MB string is accepted as it is written (the parse is 64 bits wide: the anchors name the call)
+//@ ghost gOffParsed int64
+//@ ghost gOffParsedOK bool
+//@ ghost gOffScaled bool
+//@ ghostentry gOffParsedOK = false
+//@ ghostafter "n, err := strconv.ParseInt(spec, 10, 64)" : gOffParsed = n
+//@ ghostafter "n, err := strconv.ParseInt(spec, 10, 64)" : gOffScaled = false
+//@ ghostafter "n, err := strconv.ParseInt(spec, 10, 64)" : gOffParsedOK = (err == nil)
+//@ ghostafter "n, err := strconv.ParseInt(spec[1:], 10, 64)" : gOffParsed = n
+//@ ghostafter "n, err := strconv.ParseInt(spec[1:], 10, 64)" : gOffScaled = true
+//@ ghostafter "n, err := strconv.ParseInt(spec[1:], 10, 64)" : gOffParsedOK = (err == nil)
+//@ modifies ghost.gOffParsed ghost.gOffParsedOK ghost.gOffScaled
+//@ ensures [C18] plain.accepted: !gOffScaled && gOffParsedOK && 0 <= gOffParsed && gOffParsed < 4294967296 ==> valid && offset == int(gOffParsed)
+//@ ensures [C18] scaled.accepted: gOffScaled && gOffParsedOK && 0 <= gOffParsed && gOffParsed < 4294967296 && gOffParsed * int64(width) < 4294967296 ==> valid && offset == int(gOffParsed) * width
+//@ ensures [C18] unparsed.refused: !gOffParsedOK ==> !valid
 
 //@ func organizeBitfieldOp
 //@ prop C18
 //@ safetyprop C13
 //@ requires opType == BF_GET || opType == BF_SET || opType == BF_INCRBY
 //@ requires oflowChanges != nil
-//@ modifies alloc map
+//@ modifies alloc map ghost.gOffParsed ghost.gOffParsedOK ghost.gOffScaled
 //@ ensures [C18] op.wf: op != nil ==> bfOpWF(op)
 //@ ensures [C18] op.made: valid && tableKey == "" ==> op != nil
 
